@@ -98,6 +98,9 @@ def run_batch(ctx, n, with_model=True):
                                         {"u": 1, "x": (nan,), "y": (nan,)}, {"u": 1, "x": 1, "y": True}]))
     for c in gen.membership_cases(rng, 40 if ctx.tier == "quick" else 600):
         extra.append((c["prog"], c["text"], c["envs"]))
+    # the same statement several times in one program, at different depths (both layouts indent differently)
+    for c in gen.repeated_leaf_programs(rng, None if ctx.tier == "thorough" else [2, 21, 33, 65]):
+        extra.append((c["prog"], c["text"], c["envs"][::3]))
     cases += extra
     models += [None] * len(extra)
     for (prog, text, envs), m in zip(cases, models):
